@@ -10,6 +10,9 @@ import sys
 
 HERE = os.path.dirname(os.path.abspath(__file__))
 sys.path.insert(0, os.path.dirname(HERE))
+_alt = os.environ.get("VERIF_REPO")
+if _alt and os.path.isdir(os.path.join(_alt, "mypy")):
+    sys.path.insert(0, _alt)
 
 
 def main() -> None:
